@@ -6,9 +6,9 @@ import props, build
 TEXT = {
     "C01": "full proof of the tiling statement on the model for every input (C01_tiling: ordered, disjoint root ranges inside the input, gaps and rest blank, Source = range with NUL replaced, StartLine by line endings, lengths) and for the streaming entry point (parseStream_eq_small); the memory clauses (aliasing, buffer untouched) are observed on the implementation by the oracle; tie: root-block headers through both entry points",
     "C02": "partial proof: block spans valid, nested, ordered for every input (parseFull_block_spans); inline spans valid, nested, ordered for every leaf meeting the executable entry conditions (parseInlines_spans, rewrite_roots_inline_spans), which the run evaluates on the implementation's pre-inline trees; that the block layer always meets them, and character boundaries, decided by span-structure correspondence (model vs Parse) plus the span oracle",
-    "C03": "partial proof: no Unparsed node remains and entry bounds (every input); coverage decided by leaf-span correspondence plus the coverage oracle",
+    "C03": "partial proof: at the block layer no textual byte is lost or duplicated, for every input (no_duplication, no_loss); after the inline pass no byte is covered twice (C03_no_dup_partial, under the executable entry condition evaluated on the implementation's trees); coverage through the inline parser decided by leaf-span correspondence plus the coverage oracle",
     "C04": "partial proof: the block layer is total for every input (parseBlocks_total: no panic site, no fuel exhaustion), Walk and readline terminate with stated fuel, renderer/formatter models are total; remaining fuel sufficiency observed on the model (no fuel code on any case) and the implementation run under recover + watchdog in all 30 configurations",
-    "C05": "partial proof: canContain closure, entry kinds per block kind, no Unparsed node, reference closure, item-number range for every input; remaining grammar clauses decided by kind/accessor correspondence through both entry points plus the grammar oracle",
+    "C05": "full proof on the model of the node grammar for every input: block level (parseFull_gramBlocks), inline level incl. no link in a link and title-follows-destination (ComposeGram.parseFull_gramI), canContain closure, entry kinds, reference closure, item-number range; accessor agreement decided by kind/accessor correspondence through both entry points plus the grammar oracle",
     "C06": "denotation oracle on serialised abstract documents (generator + CommonMark 0.30 denotation in lib/docgen.py) plus model/implementation HTML correspondence; supporting theorems only (recognizers = definitions, renderer = structural reading); the whole-pipeline statement is not proved",
     "C07": "full proof on the model: C07_final (for every input, every reference matcher, every configuration without tag filter, rendered HTML is in the safe grammar); C07_render_safeW holds for every tree whose leaves satisfy bokW and the run evaluates bokW on the implementation's own trees; tie: model renderer on the implementation's tree = implementation's bytes",
     "C08": "full proof on the stream-layer model: readline under any read schedule (readline_sim), whole NextBlock (next_block_sim), whole runs and the fault clause (C08_stream_eq, C08_fault), any block machine satisfying three stated laws; tie: streaming implementation under generated schedules/faults vs the in-memory model on the delivered prefix",
@@ -16,7 +16,7 @@ TEXT = {
     "C10": "full proof on the model: Walk with the renderer's callbacks writes exactly the structural reading renderB of the tree, for every block and configuration (C10_appendBlock, walk_is_spec); tie: the structural renderer run on the implementation's own tree dump reproduces the implementation's bytes in all 30 configurations; determinism / tree untouched / joining observed on the implementation",
     "C11": "proof that the openers_bottom search bounds never change the result of process-emphasis (abstract lists of any length, and on the transcription of processEmphasis); full statement proved end to end on a vertical slice (C11_slice: lines of any length over letters, spaces, '*', '_' and a few ASCII punctuation bytes parse to exactly the forest the spec's delimiter-run procedure denotes); flanking flags and tokenisation tied by exhaustive correspondence up to a length bound; oracle = independent transcription of the spec procedure without the bound",
     "C12": "partial proof: closure clause for every input and matcher (C12_closure), Extract = first-wins fold in source order; label normalisation tied through the generated case-folding table and judged against an independent normaliser on generated label pairs",
-    "C13": "partial proof: recognizer theorems fix the shape at creation for list markers, fences, ATX and setext lines; other shapes decided by (kind, span) correspondence plus the shape oracle",
+    "C13": "proof on the model: inline level for every input and matcher (ComposeShapes.parseBlocks_inline_shapes: every inline node has a valid span and the shape of its construct); block level for every input without NUL, and with NUL before filling / when cuts are aligned (parseFull_block_shapes_*); tie: (kind, span) correspondence plus the shape oracle",
     "C14": "partial proof: padding clause for any block machine (nb_shift, skip_blank_lines); recognizers insensitive to line-ending style through their declarative definitions; CRLF/CR and final-newline clauses decided by correspondence on the variants plus the oracle",
     "C15": "full proof on the model: every recognizer equals (or is sound and complete for) its declarative definition on every line, classifiers over all 256 bytes, e-mail grammar, URI alphabet / well-formed escapes / idempotence; classifier bodies and constants are regenerated from /repo's source on every run (TieClassify.v, TieBlocks.v, TieRender.v); recognizers tied by exhaustive correspondence through the verif hook",
     "C16": "re-parse oracle on the implementation (every root block re-parsed and compared node by node) plus model/implementation tree correspondence; supporting invariants machine-checked; no theorem states the re-parse property yet",
